@@ -37,18 +37,36 @@ pub fn drive(bytes: &[u8], opts: &[u8], v: &mut Verdict, item_cap: u32) -> Resul
         // std's collect() / extend() reserve memory for the lower bound an iterator promises and panic ("capacity
         // overflow") or abort when that is absurd: a cloud that stores at least one bit per point cannot deliver more than
         // 8 points per byte of the file, whatever its recordCount says
-        let hint = guard(|| -> Option<(usize, usize, bool)> {
+        let hint = guard(|| -> Option<(usize, usize, Option<u64>, bool)> {
             let pc = rd.pointclouds().get(c)?.clone();
-            let stores_bits = pc.prototype.iter().any(|r| !matches!(r.data_type, e57::RecordDataType::Integer { min, max } | e57::RecordDataType::ScaledInteger { min, max, .. } if min == max));
+            // bits stored per point: the sum of the widths of all records (an integer record needs the bits of max - min)
+            let bits: u64 = pc
+                .prototype
+                .iter()
+                .map(|r| match r.data_type {
+                    e57::RecordDataType::Single { .. } => 32,
+                    e57::RecordDataType::Double { .. } => 64,
+                    e57::RecordDataType::Integer { min, max } | e57::RecordDataType::ScaledInteger { min, max, .. } => {
+                        let range = (max as i128 - min as i128).max(0) as u128;
+                        (128 - range.leading_zeros()) as u64
+                    }
+                })
+                .sum();
+            // a cloud of constant records stores nothing and may generate any number of points; a cloud without any record
+            // cannot deliver a single point
+            let per_point = if pc.prototype.is_empty() { Some(1) } else if bits == 0 { None } else { Some(bits) };
             let raw = rd.pointcloud_raw(&pc).ok()?.size_hint().0;
             let simple = rd.pointcloud_simple(&pc).ok()?.size_hint().0;
-            Some((raw, simple, stores_bits))
+            Some((raw, simple, per_point, !pc.prototype.is_empty()))
         })
         .map_err(|p| format!("size_hint of cloud {c} panicked: {p}"))?;
-        if let Some((raw, simple, true)) = hint {
-            let possible = bytes.len().saturating_mul(8);
-            if raw > possible || simple > possible {
-                return Err(format!("cloud {c}: size_hint() promises at least {} points from a file of {} bytes that stores bits for every point; collect() and extend() reserve memory for that many items (capacity overflow panic / allocation failure abort)", raw.max(simple), bytes.len()));
+        if let Some((raw, simple, Some(per_point), stores)) = hint {
+            let possible = (bytes.len() as u64).saturating_mul(8) / per_point;
+            if per_point > 1 {
+                v.nt("size_hint_of_a_cloud_with_several_bits_per_point");
+            }
+            if raw as u64 > possible || simple as u64 > possible {
+                return Err(format!("cloud {c}: size_hint() promises at least {} points from a file of {} bytes whose cloud {}; collect() and extend() reserve memory for that many items (capacity overflow panic / allocation failure abort)", raw.max(simple), bytes.len(), if per_point > 1 || stores { format!("stores {per_point} bits for every point") } else { "has no records at all".to_string() }));
             }
         }
         let op = ReadOp::Raw { cloud: c as u8, take: item_cap };
@@ -86,7 +104,7 @@ impl Check for C08 {
          stream count, stream lengths), blob header fields; payload bit flips; truncation to page and non-page multiples, extension. 4 in 5 scripts \
          re-seal every page checksum so the mutation reaches the parsers. Every reading entry point (validate_crc, raw_xml, new, getters, raw \
          iterator, simple iterator under 3 option vectors, every blob) runs under catch_unwind in a worker process built with overflow checks and \
-         debug assertions; any panic, abort or signal is a violation; so is a size_hint() lower bound above 8 points per file byte for a cloud that stores bits per point (std's collect() reserves that many items). Non-trivial: the mutant passes E57Reader::new (reaches the section parsers)."
+         debug assertions; any panic, abort or signal is a violation; so is a size_hint() lower bound above what the file can hold (8 x file bytes / bits per point for a cloud that stores bits, any points at all beyond that for a cloud without records; std's collect() reserves that many items). Non-trivial: the mutant passes E57Reader::new (reaches the section parsers)."
             .into()
     }
     fn assumptions() -> Vec<String> {
